@@ -400,3 +400,257 @@ Proof.
   - (* nothing arrived: recv_err (-2) returns at once *)
     unfold recv_err. cbn [Z.eqb Pos.eqb Z.opp]. apply hoare_ret. right. auto.
 Qed.
+
+Lemma recv_timeout_pos : Z.max 0 c_RTR_RECV_TIMEOUT = c_RTR_RECV_TIMEOUT /\ 0 < c_RTR_RECV_TIMEOUT.
+Proof. split; reflexivity. Qed.
+
+Lemma change_state_eq ns w : st (sk w) <> c_RTR_SHUTDOWN ->
+  exists w', change_state ns w = Ok tt w' /\ st (sk w') = ns /\ N w w' /\ (live_b ns = true -> F w w').
+Proof.
+  intros Hst. unfold change_state. unfold_prims.
+  destruct (st (sk w) =? ns) eqn:E1.
+  - apply Z.eqb_eq in E1. eexists. split; [reflexivity|]. split; [exact E1|]. split; [apply N_refl|intros; apply F_refl].
+  - destruct (st (sk w) =? c_RTR_SHUTDOWN) eqn:E2; [apply Z.eqb_eq in E2; contradiction|].
+    eexists. split; [reflexivity|]. sk_simpl. split; [reflexivity|]. split; [nfin|]. intros Hl. ffin.
+Qed.
+
+(* rtr_sync: its first receive decides *)
+Lemma sync_first_spec f w : st (sk w) <> c_RTR_SHUTDOWN ->
+  hoare (sync_first (S f)) w
+    (fun a w' => prog w w' \/ (a = None /\ now w' = now w + c_RTR_RECV_TIMEOUT /\ F w w')) (prog w).
+Proof.
+  intros Hst. cbn [sync_first].
+  eapply hoare_bind; [apply receive_pdu_spec; exact Hst|].
+  intros a w1 E1 Hq. destruct Hq as [Hp|(-> & Hs & Hn & HF)].
+  - match goal with |- hoare ?m _ _ _ => assert (HF : relF m w1) end.
+    { destruct a; repeat fstep; try flem; try apply sync_first_F; try fprim. }
+    eapply hoare_conseq; [apply (hoare_of_rel F), HF| |]; cbv beta; intros; [left|]; eapply prog_F; eauto.
+  - apply hoare_get_sk. cbn [Z.eqb Pos.eqb Z.opp andb orb].
+    assert (Hst1 : st (sk w1) <> c_RTR_SHUTDOWN) by (rewrite Hs; exact Hst).
+    destruct (change_state_eq c_RTR_ERROR_TRANSPORT w1 Hst1) as (w2 & E2 & _ & (Hn2 & _) & HF2).
+    unfold hoare, bind. rewrite E2. unfold ret. right.
+    split; [reflexivity|]. split; [|eapply F_trans; [exact HF|apply HF2; reflexivity]].
+    rewrite Hn2, Hn. reflexivity.
+Qed.
+
+Lemma rtr_sync_spec f w : st (sk w) <> c_RTR_SHUTDOWN ->
+  hoare (rtr_sync (S f)) w
+    (fun a w' => prog w w' \/ (now w' = now w + c_RTR_RECV_TIMEOUT)) (prog w).
+Proof.
+  intros Hst. unfold rtr_sync.
+  eapply hoare_bind; [apply sync_first_spec; exact Hst|].
+  cbv beta. intros a w1 E1 Hq. destruct Hq as [Hp|(-> & Hn & HF)].
+  - match goal with |- hoare ?m _ _ _ => assert (HF : relF m w1) end.
+    { destruct a; repeat fstep; try flem; try (fprim; fail).
+      all: try (unfold rel; unfold_prims; destruct (negb _); ffin). }
+    eapply hoare_conseq; [apply (hoare_of_rel F), HF| |]; cbv beta; intros; [left|]; eapply prog_F; eauto.
+  - apply hoare_ret. right. exact Hn.
+Qed.
+
+Lemma wait_for_sync_spec w : st (sk w) <> c_RTR_SHUTDOWN ->
+  hoare wait_for_sync w
+    (fun a w' => prog w w' \/
+       (a = 0 /\ sk w' = sk w /\ now w' = now w + Z.max 0 (last_update (sk w) + refresh_iv (sk w) - now w) /\ F w w'))
+    (prog w).
+Proof.
+  intros Hst. unfold wait_for_sync. apply hoare_get_sk. apply hoare_get_now.
+  eapply hoare_bind; [apply receive_pdu_spec; exact Hst|].
+  intros a w1 E1 Hq. destruct Hq as [Hp|(-> & Hs & Hn & HF)].
+  - match goal with |- hoare ?m _ _ _ => assert (HF : relF m w1) end.
+    { destruct a; repeat fstep; try flem. }
+    eapply hoare_conseq; [apply (hoare_of_rel F), HF| |]; cbv beta; intros; [left|]; eapply prog_F; eauto.
+  - cbn [Z.eqb Pos.eqb Z.opp]. apply hoare_ret. right.
+    split; [reflexivity|]. split; [exact Hs|]. split; [|exact HF]. rewrite Hn. f_equal. lia.
+Qed.
+
+(* sending never raises an exception; a failed query leaves the socket in ERROR_TRANSPORT *)
+Lemma tr_send_ok b w : exists r w', tr_send b w = Ok r w'.
+Proof. unfold tr_send. destruct (sends w); destruct (_ <? 0); eauto. Qed.
+Lemma tr_send_all_loop_ok fuel : forall b tot w, exists r w', tr_send_all_loop fuel b tot w = Ok r w'.
+Proof.
+  induction fuel as [|f IH]; intros; cbn [tr_send_all_loop]; [unfold ret; eauto|].
+  destruct b as [|x b]; [unfold ret; eauto|].
+  unfold bind. destruct (tr_send_ok (x :: b) w) as (r & w' & ->).
+  destruct (r <? 0); [unfold ret; eauto|]. destruct (r =? 0); [unfold ret; eauto|]. apply IH.
+Qed.
+Lemma send_pdu_ok b w : exists r w', send_pdu b w = Ok r w' /\ S0 w w' /\ (r = 0 \/ r = -1).
+Proof.
+  pose proof (send_pdu_S b w) as HS. unfold rel in HS.
+  assert (H : exists r w', send_pdu b w = Ok r w' /\ (r = 0 \/ r = -1)).
+  { unfold send_pdu. unfold bind at 1, get_sk.
+    destruct (st (sk w) =? c_RTR_SHUTDOWN); [unfold ret; eauto|].
+    unfold bind, tr_send_all. destruct (tr_send_all_loop_ok (List.length b) b 0 w) as (r & w' & ->).
+    unfold ret. destruct (r >? 0); eauto. }
+  destruct H as (r & w' & E & Hr). rewrite E in HS. eauto.
+Qed.
+
+Lemma send_query_spec (q : world -> res Z) (bytes : sock -> list byte) w :
+  (q = fun w => (mdo s <- get_sk; mdo r <- send_pdu (bytes s);
+                 if r =? 0 then ret 0 else mdo _ <- change_state c_RTR_ERROR_TRANSPORT; ret (-1)) w) ->
+  st (sk w) <> c_RTR_SHUTDOWN ->
+  exists r w', q w = Ok r w' /\ N w w' /\ F w w' /\
+               ((r = 0 /\ st (sk w') = st (sk w)) \/ (r <> 0 /\ st (sk w') = c_RTR_ERROR_TRANSPORT)).
+Proof.
+  intros -> Hst. unfold bind at 1, get_sk.
+  destruct (send_pdu_ok (bytes (sk w)) w) as (r & w1 & E & HS & Hr).
+  unfold bind at 1. rewrite E.
+  assert (HF1 : F w w1) by (pose proof (send_pdu_F (bytes (sk w)) w) as H; unfold rel in H; rewrite E in H; exact H).
+  destruct Hr as [-> | ->]; cbn [Z.eqb].
+  - unfold ret. eexists _, _. split; [reflexivity|]. split; [apply S0_N, HS|]. split; [exact HF1|]. left. split; [reflexivity|].
+    destruct HS as (-> & _). reflexivity.
+  - assert (Hst1 : st (sk w1) <> c_RTR_SHUTDOWN) by (destruct HS as (-> & _); exact Hst).
+    destruct (change_state_eq c_RTR_ERROR_TRANSPORT w1 Hst1) as (w2 & E2 & Hs2 & HN2 & HF2).
+    unfold bind. rewrite E2. unfold ret. eexists _, _. split; [reflexivity|].
+    split; [eapply N_trans; [apply S0_N, HS|exact HN2]|]. split; [eapply F_trans; [exact HF1|apply HF2; reflexivity]|].
+    right. split; [discriminate|exact Hs2].
+Qed.
+
+Lemma send_serial_query_spec w : st (sk w) <> c_RTR_SHUTDOWN ->
+  exists r w', send_serial_query w = Ok r w' /\ N w w' /\ F w w' /\
+               ((r = 0 /\ st (sk w') = st (sk w)) \/ (r <> 0 /\ st (sk w') = c_RTR_ERROR_TRANSPORT)).
+Proof.
+  apply (send_query_spec send_serial_query
+           (fun s => [version s mod 256; c_SERIAL_QUERY] ++ enc16 (session_id s mod 65536) ++ enc32 12 ++ enc32 (serial s))).
+  reflexivity.
+Qed.
+Lemma send_reset_query_spec w : st (sk w) <> c_RTR_SHUTDOWN ->
+  exists r w', send_reset_query w = Ok r w' /\ N w w' /\ F w w' /\
+               ((r = 0 /\ st (sk w') = st (sk w)) \/ (r <> 0 /\ st (sk w') = c_RTR_ERROR_TRANSPORT)).
+Proof.
+  apply (send_query_spec send_reset_query (fun s => [version s mod 256; c_RESET_QUERY] ++ enc16 0 ++ enc32 8)).
+  reflexivity.
+Qed.
+
+(* ---------- the measure ---------- *)
+Lemma rank_le3 s : (rank s <= 3)%nat.
+Proof. unfold rank. repeat match goal with |- context [if ?c then _ else _] => destruct c end; lia. Qed.
+
+Lemma prog_measure w w' : prog w w' -> (measure w' < measure w)%nat.
+Proof. unfold prog, measure. pose proof (rank_le3 (st (sk w'))). lia. Qed.
+
+Lemma F_rank_measure w w' : F w w' -> (rank (st (sk w')) < rank (st (sk w)))%nat -> (measure w' < measure w)%nat.
+Proof. unfold F, measure. intros [H _] ?. lia. Qed.
+
+Lemma purge_outdated_eq w :
+  exists w', purge_outdated w = Ok tt w' /\ st (sk w') = st (sk w) /\ N w w' /\ F w w'.
+Proof.
+  pose proof (purge_outdated_N w) as HN. pose proof (purge_outdated_F w) as HF. unfold rel in HN, HF.
+  unfold purge_outdated, src_remove_all in *. unfold_prims. unfold_prims_in HN. unfold_prims_in HF.
+  destruct (last_update (sk w) =? 0); [eexists; split; [reflexivity|]; auto|].
+  destruct (last_update (sk w) + expire_iv (sk w) <? now w); eexists; (split; [reflexivity|]); auto.
+Qed.
+
+Lemma live_not_shutdown w : live w -> st (sk w) <> c_RTR_SHUTDOWN.
+Proof. unfold live. intros H E. rewrite E in H. discriminate. Qed.
+
+Ltac state_eq := repeat match goal with H : (_ =? _) = true |- _ => apply Z.eqb_eq in H end.
+
+(* C08_no_stutter *)
+Theorem no_stutter f w : live w ->
+  hoare (fsm_step (S f)) w (fun _ w' => now w' = now w -> (measure w' < measure w)%nat) (prog w).
+Proof.
+  intros Hl. pose proof (live_not_shutdown w Hl) as Hns.
+  unfold fsm_step. apply hoare_get_sk. cbv zeta.
+  destruct (st (sk w) =? c_RTR_CONNECTING) eqn:E0.
+  { (* CONNECTING: an entry of the open script is consumed *)
+    unfold bind at 1, set_sk.
+    match goal with |- hoare _ ?w1 _ _ => set (w1' := w1) end.
+    assert (HF1 : F w w1') by (subst w1'; ffin).
+    destruct (purge_outdated_eq w1') as (w2 & E2 & _ & _ & HF2).
+    unfold hoare, bind at 1. rewrite E2.
+    unfold bind at 1, tr_open. destruct (opens w2) as [|b r] eqn:Eo; [exact I|].
+    match goal with |- match ?m ?w3 with _ => _ end => set (w3' := w3); assert (HF3 : relF m w3') end.
+    { repeat fstep; try flem. }
+    assert (Hp : prog w w3').
+    { eapply F_prog; [eapply F_trans; eauto|]. subst w3'. unfold prog, input_left. sk_simpl. rewrite Eo. cbn [List.length]. lia. }
+    unfold rel in HF3.
+    match goal with |- match ?x with _ => _ end => destruct x as [a w4|[why|] w4] end; auto.
+    - intros _. apply prog_measure. eapply prog_F; eauto.
+    - eapply prog_F; eauto. }
+  destruct (st (sk w) =? c_RTR_RESET) eqn:E1.
+  { state_eq. destruct (send_reset_query_spec w Hns) as (r & w1 & Eq & HN1 & HF1 & Hr).
+    unfold hoare, bind at 1. rewrite Eq.
+    destruct Hr as [[-> Hs]|[Hr Hs]].
+    - cbn [Z.eqb]. destruct (change_state_eq c_RTR_SYNC w1 ltac:(rewrite Hs; exact Hns)) as (w2 & E2 & Hs2 & _ & HF2).
+      rewrite E2. intros _. apply F_rank_measure; [eapply F_trans; [exact HF1|apply HF2; reflexivity]|]. rewrite Hs2, E1. cbn. lia.
+    - destruct (r =? 0) eqn:Er; [apply Z.eqb_eq in Er; contradiction|]. unfold ret. intros _.
+      apply F_rank_measure; [exact HF1|]. rewrite Hs, E1. cbn. lia. }
+  destruct (st (sk w) =? c_RTR_SYNC) eqn:E2.
+  { (* SYNC: the first receive consumes input or waits out its 60 s *)
+    eapply hoare_bind; [apply rtr_sync_spec; exact Hns|].
+    cbv beta. intros r w1 Er Hq.
+    destruct Hq as [Hp|Hn].
+    - assert (HF : relF (if r =? 0 then change_state c_RTR_ESTABLISHED else ret tt) w1) by (repeat fstep; try flem).
+      eapply hoare_conseq; [apply (hoare_of_rel F), HF| |]; cbv beta; intros.
+      + apply prog_measure. eapply prog_F; eauto.
+      + eapply prog_F; eauto.
+    - assert (HN : relN (if r =? 0 then change_state c_RTR_ESTABLISHED else ret tt) w1)
+        by (destruct (r =? 0); [apply change_state_N|apply (rel_ret N N_refl)]).
+      unfold rel in HN. unfold hoare.
+      destruct ((if r =? 0 then change_state c_RTR_ESTABLISHED else ret tt) w1) as [a w2|[why|] w2] eqn:Ek.
+      + destruct HN as (HN & _). intros Hc. pose proof recv_timeout_pos. lia.
+      + exact I.
+      + (* neither change_state nor ret raises *)
+        destruct (r =? 0); [|discriminate].
+        unfold change_state in Ek. unfold_prims_in Ek.
+        repeat match type of Ek with context [if ?c then _ else _] => destruct c end; discriminate. }
+  destruct (st (sk w) =? c_RTR_ESTABLISHED) eqn:E3.
+  { state_eq.
+    eapply hoare_bind; [apply wait_for_sync_spec; exact Hns|].
+    cbv beta. intros r w1 Er Hq.
+    destruct Hq as [Hp|(-> & Hs & Hn & HF0)].
+    - match goal with |- hoare ?m _ _ _ => assert (HF : relF m w1) by (repeat fstep; try flem) end.
+      eapply hoare_conseq; [apply (hoare_of_rel F), HF| |]; cbv beta; intros.
+      + apply prog_measure. eapply prog_F; eauto.
+      + eapply prog_F; eauto.
+    - (* the refresh timer had already run out and nothing was pending: the query goes out *)
+      cbn [Z.eqb].
+      assert (Hns1 : st (sk w1) <> c_RTR_SHUTDOWN) by (rewrite Hs; exact Hns).
+      destruct (send_serial_query_spec w1 Hns1) as (q & w2 & Eq & HN2 & HF2 & Hq).
+      unfold hoare, bind at 1. rewrite Eq.
+      destruct Hq as [[-> Hs2]|[Hq Hs2]].
+      + cbn [Z.eqb]. destruct (change_state_eq c_RTR_SYNC w2 ltac:(rewrite Hs2; exact Hns1)) as (w3 & E3' & Hs3 & _ & HF3).
+        rewrite E3'. intros _. apply F_rank_measure.
+        * eapply F_trans; [exact HF0|]. eapply F_trans; [exact HF2|apply HF3; reflexivity].
+        * rewrite Hs3, E3. cbn. lia.
+      + destruct (q =? 0) eqn:Eq0; [apply Z.eqb_eq in Eq0; contradiction|]. unfold ret. intros _.
+        apply F_rank_measure; [eapply F_trans; eauto|]. rewrite Hs2, E3. cbn. lia. }
+  destruct (st (sk w) =? c_RTR_FAST_RECONNECT) eqn:E4.
+  { state_eq. unfold bind at 1, tr_close, emit.
+    match goal with |- hoare _ ?w1 _ _ => set (w1' := w1) end.
+    destruct (change_state_eq c_RTR_CONNECTING w1' Hns) as (w2 & Ec & Hs2 & _ & HF2).
+    unfold hoare. rewrite Ec. intros _. apply F_rank_measure.
+    - eapply F_trans; [|apply HF2; reflexivity]. subst w1'. ffin.
+    - rewrite Hs2, E4. cbn. lia. }
+  destruct (st (sk w) =? c_RTR_ERROR_NO_DATA_AVAIL) eqn:E5.
+  { state_eq. unfold bind at 1, set_sk.
+    match goal with |- hoare _ ?w1 _ _ => set (w1' := w1) end.
+    destruct (change_state_eq c_RTR_RESET w1' Hns) as (w2 & Ec & Hs2 & _ & HF2).
+    unfold hoare, bind at 1. rewrite Ec. unfold bind at 1, do_sleep.
+    match goal with |- match purge_outdated ?w3 with _ => _ end => set (w3' := w3) end.
+    destruct (purge_outdated_eq w3') as (w4 & E4' & Hs4 & _ & HF4). rewrite E4'. intros _.
+    apply F_rank_measure.
+    - eapply F_trans; [|exact HF4]. eapply F_trans; [|subst w3'; ffin; apply (proj2 (HF2 eq_refl))].
+      subst w1'. ffin.
+    - rewrite Hs4. subst w3'. sk_simpl. rewrite Hs2, E5. cbn. lia. }
+  destruct (st (sk w) =? c_RTR_ERROR_NO_INCR_UPDATE_AVAIL) eqn:E6.
+  { state_eq. unfold bind at 1, set_sk.
+    match goal with |- hoare _ ?w1 _ _ => set (w1' := w1) end.
+    destruct (change_state_eq c_RTR_RESET w1' Hns) as (w2 & Ec & Hs2 & _ & HF2).
+    unfold hoare, bind at 1. rewrite Ec.
+    destruct (purge_outdated_eq w2) as (w4 & E4' & Hs4 & _ & HF4). rewrite E4'. intros _.
+    apply F_rank_measure.
+    - eapply F_trans; [|exact HF4]. eapply F_trans; [|apply HF2; reflexivity]. subst w1'. ffin.
+    - rewrite Hs4, Hs2, E6. cbn. lia. }
+  destruct ((st (sk w) =? c_RTR_ERROR_TRANSPORT) || (st (sk w) =? c_RTR_ERROR_FATAL)) eqn:E7.
+  { unfold bind at 1, tr_close, emit.
+    match goal with |- hoare _ ?w1 _ _ => set (w1' := w1) end.
+    destruct (change_state_eq c_RTR_CONNECTING w1' Hns) as (w2 & Ec & Hs2 & _ & HF2).
+    unfold hoare, bind at 1. rewrite Ec. unfold do_sleep. intros _.
+    apply F_rank_measure.
+    - eapply F_trans; [subst w1'; ffin|]. eapply F_trans; [apply HF2; reflexivity|]. ffin.
+    - sk_simpl. rewrite Hs2. apply orb_true_iff in E7. destruct E7 as [E7|E7]; apply Z.eqb_eq in E7; rewrite E7; cbn; lia. }
+  (* no other state is live *)
+  exfalso. apply orb_false_iff in E7. destruct E7 as [E7 E8].
+  unfold live, live_b in Hl. rewrite E0, E1, E2, E3, E4, E5, E6, E7, E8 in Hl. discriminate.
+Qed.
